@@ -48,6 +48,7 @@ fn main() {
         Some("c08child") => c08::child(&args[2], &args[3]),
         Some("c20child") => c20w::child(&args[2], &args[3], &args[4], args.get(5).and_then(|s| s.parse().ok()).unwrap_or(0), args.get(6).and_then(|s| s.parse().ok()).unwrap_or(1)),
         Some("c19child") => c19::child(&args[2], &args[3]),
+        Some("c18child") => c18::child(&args[2], &args[3]),
         Some("parse1") => c17::parse1(&args[2]),
         Some("selftest") => match interpose::self_test(&explore::work_root()) {
             Ok(()) => {
